@@ -336,7 +336,7 @@ func (g *qgen) pn(depth int) *QPN {
 		if r.Bool(0.12) {
 			p.SkipHidden = true
 		}
-		if r.Bool(0.15) && depth < maxDepth {
+		if r.Bool(0.2) && depth < maxDepth {
 			rel := &QRel{Rel: g.pickS([]string{"parent", "child"}), Edge: g.pickS([]string{"", "", "camliMember", "camliPath:foo"})}
 			sub := g.setConstraint(depth + 1)
 			if r.Bool(0.5) {
@@ -536,7 +536,7 @@ func (g *qgen) query() *Query {
 		return &Query{C: g.invalid(), Sort: "unsorted", Limit: -1, Invalid: true}
 	}
 	q := &Query{C: g.constraint(1), Limit: limits[r.Intn(len(limits))]}
-	if r.Bool(0.07) {
+	if r.Bool(0.015) {
 		// a logical node that also sets other fields ("all other fields are
 		// ignored"); kept to sorts that do not depend on the planner's view
 		// of the query
@@ -562,7 +562,7 @@ func (g *qgen) query() *Query {
 		default:
 			q.Sort = g.pickS([]string{"unsorted", "blobref", "blobref"})
 		}
-		if q.C.usesDirChildren() && q.Limit > 0 && q.Limit < 200 {
+		if q.C.usesDirChildren() && q.Limit > 0 && q.Limit < 200 && r.Bool(0.7) {
 			// without a corpus the children of a directory are read through
 			// GetDirMembers(…, limit = the query's Limit): see the report
 			q.Limit = -1
@@ -572,7 +572,10 @@ func (g *qgen) query() *Query {
 	if q.C.aboutPermanodesOnly() {
 		q.Sort = g.pickS([]string{"", "-created", "-created", "-mod", "-mod", "created", "blobref", "blobref", "unsorted", "mod"})
 	} else {
-		q.Sort = g.pickS([]string{"", "", "unsorted", "blobref", "blobref", "blobref", "-created", "-mod", "created"})
+		q.Sort = g.pickS([]string{"", "", "", "unsorted", "unsorted", "blobref", "blobref", "blobref", "blobref", "blobref", "-created", "created"})
+		if r.Bool(0.03) {
+			q.Sort = "-mod"
+		}
 	}
 	return q
 }
